@@ -6,6 +6,7 @@ git -C /repo diff --quiet || { echo "/repo working tree is not clean"; exit 2; }
 SEEDS=${@:-$(ls seeded)}
 for s in $SEEDS; do
   id=${s%-*}
+  if grep -q '"obsolete"' /verif/seeded/$s/meta.json 2>/dev/null; then echo "$s obsolete (see meta.json)"; continue; fi
   git -C /repo apply /verif/seeded/$s/patch.diff 2>/dev/null || { echo "$s APPLY-FAILS"; continue; }
   timeout 2400 ./run.sh $id quick > /tmp/seedreg-$s.log 2>&1; rc=$?
   git -C /repo checkout -- .
